@@ -122,7 +122,13 @@ impl ReadHalf for R {
                         if w.log_reads {
                             ev(json!({"ev":"read_err","c":tag}));
                         }
-                        Poll::Ready(Err(zlink_core::Error::SocketRead))
+                        // the ways a transport reports a failed read: the library's own variant, or the I/O error
+                        // of the operating system (a reset connection, a broken pipe), alternating by connection
+                        Poll::Ready(Err(match tag % 3 {
+                            0 => zlink_core::Error::SocketRead,
+                            1 => zlink_core::Error::Io(std::io::Error::from(std::io::ErrorKind::ConnectionReset)),
+                            _ => zlink_core::Error::Io(std::io::Error::from(std::io::ErrorKind::BrokenPipe)),
+                        }))
                     } else if w.closed {
                         if w.log_reads {
                             ev(json!({"ev":"read_eof","c":tag}));
